@@ -26,7 +26,10 @@ import (
 
 // call is one Handle call: which handler of the tree, which record.
 type call struct {
-	Node int `json:"node"` // 0 root, 1 child A, 2 child B, 3 grandchild of A
+	// 0 root, 1 child A, 2 child B, 3 grandchild of A, 4 their parent, 5 and 6
+	// underived ends of chains of depth 3 and 5; 10+n:
+	// a handler derived from node n by this thread, inside the thread.
+	Node int `json:"node"`
 	Rec  int `json:"rec"`
 }
 
@@ -76,7 +79,25 @@ func tree(w *sharedWriter) []slog.Handler {
 	b := base.WithAttrs([]slog.Attr{slog.String("who", "B")})
 	ga := a.WithAttrs([]slog.Attr{slog.Int("depth", 2)})
 
-	return []slog.Handler{root, a, b, ga}
+	// A handler nothing has been derived from yet, at the end of a chain of
+	// one-attribute derivations: whatever growth policy the attribute slice
+	// follows, one of the depths leaves spare capacity behind its length.
+	c3 := root.WithAttrs([]slog.Attr{slog.Int("c", 1)}).WithAttrs([]slog.Attr{slog.Int("c", 2)}).WithAttrs([]slog.Attr{slog.Int("c", 3)})
+	c5 := c3.WithAttrs([]slog.Attr{slog.Int("c", 4)}).WithAttrs([]slog.Attr{slog.Int("c", 5)})
+
+	return []slog.Handler{root, a, b, ga, base, c3, c5}
+}
+
+// handle performs one call.  A node >= 10 derives a handler first, so that
+// WithAttrs itself runs concurrently with the other threads' derivations and
+// Handle calls on the same parent.
+func handle(hs []slog.Handler, c call, thread, slot int) error {
+	h := hs[c.Node%10]
+	if c.Node >= 10 {
+		h = h.WithAttrs([]slog.Attr{slog.String("who", fmt.Sprintf("T%d", thread))})
+	}
+
+	return h.Handle(context.Background(), record(c.Rec, thread, slot, hs))
 }
 
 // reentrant is a value whose resolution logs through another handler of the
@@ -121,7 +142,7 @@ func (s *scenario) Exec(run func(threads ...func()) *verifsched.Exec) (out e3.Ou
 			for si, c := range prog {
 				before := w.buf.Len()
 				var err error
-				if pv, _ := runlib.Try(func() { err = hs[c.Node].Handle(context.Background(), record(c.Rec, ti, si, hs)) }); pv != nil {
+				if pv, _ := runlib.Try(func() { err = handle(hs, c, ti, si) }); pv != nil {
 					out.Viols = append(out.Viols, e3.Viol{Kind: "sequential-panic", What: fmt.Sprintf("sequential Handle of call %+v panicked: %v", c, pv)})
 
 					return out
@@ -147,7 +168,7 @@ func (s *scenario) Exec(run func(threads ...func()) *verifsched.Exec) (out e3.Ou
 	for ti, prog := range s.Progs {
 		threads = append(threads, func() {
 			for si, c := range prog {
-				if err := hs[c.Node].Handle(context.Background(), record(c.Rec, ti, si, hs)); err != nil {
+				if err := handle(hs, c, ti, si); err != nil {
 					errs = append(errs, err.Error())
 				}
 			}
@@ -261,6 +282,15 @@ func main() {
 					}
 				}
 			}
+		}
+
+		// Derivations inside the threads: two or three WithAttrs on one parent
+		// (with and without spare capacity) overlap each other and a Handle.
+		for _, p := range []int{10, 11, 14, 15, 16} {
+			items = append(items, item{&scenario{Progs: [][]call{{{p, 0}}, {{p, 1}}}}, full})
+			items = append(items, item{&scenario{Progs: [][]call{{{p, 0}}, {{p, 1}}, {{p, 2}}}}, bounded})
+			items = append(items, item{&scenario{Progs: [][]call{{{p, 0}, {p, 1}}, {{p, 2}}}}, bounded})
+			items = append(items, item{&scenario{Progs: [][]call{{{p, 0}}, {{p % 10, 1}}}}, full})
 		}
 
 		if !c.Quick() {
